@@ -16,7 +16,7 @@ import re
 from fractions import Fraction
 
 from ..core.tree import AnalysisError
-from ..core.constfold import Folder, EnumClass, Inst
+from ..core.constfold import Folder, EnumClass, Inst, Stub
 from ..core.astutil import walk_no_nested, call_name, short, src, enclosing_conjuncts
 from ..engines.symeval import SymEvaluator, Poly, SObj, SStr, Fmt, NONE, SNone, Raised
 from ..engines.affine import check_affine
@@ -36,7 +36,9 @@ def run(ctx, report):
     report.structural_section("WebVTT arithmetic (symbolic form)", "R-GRID on the layout grid (webvtt_layout_fold)",
                               webvtt_arithmetic, ctx, report, folder)
     report.section("verbatim cue settings", verbatim, ctx, report, folder)
-    report.section("fallback order", fallback, ctx, report)
+    report.structural_section("fallback order (shape)", "R-ORDER: get_positioning_info folded on every combination of levels",
+                              fallback, ctx, report)
+    report.section("fallback order", fallback_fold, ctx, report)
     report.structural_section("default before use (shape)", "the lang option of WebVTTWriter.write folded on a recording caption set for every "
                               "value (C14 webvtt_lang) and the whole-document WebVTT scenarios", default_before_use, ctx, report)
     report.section("WebVTT option guards", webvtt_option_guards, ctx, report)
@@ -331,16 +333,68 @@ def fallback(ctx, report):
             seq.append(src(n.value))
     want = ["None", "caption_node.layout_info", "caption.layout_info", "caption_set.get_layout_info(lang)",
             "caption_set.layout_info"]
-    report.check(seq == want, "R-ORDER", fn, "layout is looked up at node, caption, language, set level in that order",
-                 {"found": seq, "required": want}, "4")
+    report.recognise(seq == want, "R-ORDER", fn, "layout is looked up at node, caption, language, set level in that order",
+                     {"found": seq, "required": want}, "4")
     guards = []
     for n in walk_no_nested(fn.node):
         if isinstance(n, ast.If) and any(isinstance(s, ast.Assign) and src(s.targets[0]) == "layout_info" for s in n.body):
             guards.append(src(n.test))
     ok = len(guards) == 4 and guards[0] == "caption_node" and all(g.startswith("not layout_info") for g in guards[1:])
-    report.check(ok, "R-GUARD", fn, "a coarser level is consulted only when the finer one gave nothing", guards, "4")
+    report.recognise(ok, "R-GUARD", fn, "a coarser level is consulted only when the finer one gave nothing", guards, "4")
     ok, how = region_id_source(fn)
-    report.check(ok, "R-GUARD", fn, "an unknown layout falls back to the default region id", {"region_id_is": how}, "4")
+    report.recognise(ok, "R-GUARD", fn, "an unknown layout falls back to the default region id", {"region_id_is": how}, "4")
+
+
+def fallback_fold(ctx, report):
+    """clause 4 decided on values: RegionCreator.get_positioning_info folded for every combination of (node / caption / caption
+    set handed in or not) x (a layout present or absent at node, caption, language and set level) x (the chosen layout known
+    to the region table or not): the finest level that has a layout decides, the region id is the table's or the default one"""
+    import itertools
+    from .markup_writer_fold import World
+    from ..core.constfold import FoldRaise
+    W = World(ctx)
+    cls = ctx.index.get_class(DFXP, "RegionCreator")
+    fn = cls.find_method("get_positioning_info")
+    report.covered(fn)
+    conv = ctx.index.get_function(DFXP, "_convert_layout_to_attributes")
+    default_id = W.F.value("pycaption.dfxp.base", "DFXP_DEFAULT_REGION_ID")
+    specs = {"node": (10, 10, 30, 20, None), "caption": (20, 30, 40, 20, None), "language": (5, 60, 50, 10, None),
+             "set": (15, 70, 60, 12, None)}
+    bad, n = [], 0
+    for passed in itertools.product((True, False), repeat=2):          # caption_node / caption handed in
+        for present in itertools.product((True, False), repeat=4):
+            for known in (True, False):
+                has = dict(zip(("node", "caption", "language", "set"), present))
+                lay = {k: (W.layout(specs[k]) if has[k] else None) for k in specs}
+                node = W.ev("CaptionNode.create_text('x', layout_info=l)", l=lay["node"]) if passed[0] else None
+                cap = W.ev("Caption(1, 2, [CaptionNode.create_text('x')], layout_info=l)", l=lay["caption"]) if passed[1] else None
+                cs = W.ev("CaptionSet({'en': CaptionList([Caption(1, 2, [CaptionNode.create_text('y')])], layout_info=l)}, layout_info=g)", l=lay["language"], g=lay["set"])
+                order = ([lay["node"]] if passed[0] else []) + ([lay["caption"]] if passed[1] else []) + [lay["language"], lay["set"]]
+                chosen = next((x for x in order if x is not None), None)
+                table = W.ev("{}")
+                ids = {}
+                for k_, (name, l_) in enumerate(lay.items()):
+                    if l_ is not None and (known or l_ is not chosen):
+                        table = W.ev("dict(list(t.items()) + [(l, i)])", t=table, l=l_, i=f"r{k_}")
+                        ids[name] = f"r{k_}"
+                me = Stub("region creator", {"_region_map": table, "_assigned_region_ids": set()}, cls=cls)
+                n += 1
+                case = {"handed_in": {"caption_node": passed[0], "caption": passed[1]}, "layout_present_at": has,
+                        "chosen_layout_in_region_table": known}
+                try:
+                    rid, attrs = W.F.call_function(fn, ["en"], {"caption_set": cs, "caption": cap, "caption_node": node}, self_value=me)
+                    want_attrs = W.F.call_function(conv, [chosen])
+                except FoldRaise as e:
+                    bad.append(dict(case, raises=f"{e.exc_name}: {e}"[:140]))
+                    continue
+                want_name = next((k for k, l_ in lay.items() if l_ is chosen and l_ is not None), None)
+                want_id = ids.get(want_name, default_id) if chosen is not None else default_id
+                if rid != want_id or attrs != want_attrs:
+                    bad.append(dict(case, region_id=rid, required_region_id=want_id, decides=want_name or "nothing (default region)",
+                                    attributes=str(attrs)[:120], required_attributes=str(want_attrs)[:120]))
+    report.check(not bad, "R-ORDER", fn, f"get_positioning_info folded on {n} combinations of levels handed in, layouts present and "
+                 "region-table contents: the finest level with a layout decides the region and the attributes; an unknown or absent "
+                 "layout gives the default region id", {"combinations": n, "mismatches": bad[:3]}, "4")
 
 
 def region_id_source(fn):
